@@ -58,6 +58,7 @@ type world struct {
 	aRes    map[uint64]string
 	viol    []string
 	feat    map[string]bool
+	cur     string // what the harness is doing, for the panic monitor
 }
 
 func (w *world) emit(s string) { w.lines = append(w.lines, fmt.Sprintf("%s %d %s", w.id, w.k, s)) }
@@ -72,7 +73,9 @@ func (w *world) emitResults(r *replica) {
 			w.aRes[idx] = t[2]
 		} else if a, ok := w.aRes[idx]; ok && a != t[2] {
 			skipped := strings.HasPrefix(t[2], "none ")
-			if !(skipped && w.p.kind == "disk") {
+			if skipped && w.p.kind == "disk" {
+				w.feat["ondisk-init-skip"] = true
+			} else {
 				w.viol = append(w.viol, fmt.Sprintf("RESULT-DIFFERS entry %d: uninterrupted replica reported [%s], cut replica [%s]", idx, a, t[2]))
 			}
 		}
@@ -115,8 +118,11 @@ func u(s string) uint64 {
 func (w *world) pending() []pb.Entry { return w.log[w.flushed:] }
 
 func (w *world) deliverTo(r *replica, ents []pb.Entry) {
+	old := w.cur
+	w.cur = r.name + ".apply"
 	r.deliver(ents)
 	w.emitResults(r)
+	w.cur = old
 }
 
 // flush delivers the pending entries as one task
@@ -208,6 +214,9 @@ func (w *world) save(r *replica, f []string) {
 		w.emitResults(r)
 	}
 	w.emit(fmt.Sprintf("S idx=%d pending=%d", idx, r.node.PendingCompactLogTo()))
+	if p := r.node.PendingCompactLogTo(); p > r.ldb.ss.Index {
+		w.viol = append(w.viol, fmt.Sprintf("COMPACTION-ABOVE-SNAPSHOT replica %s published compaction index %d while its newest recorded snapshot is %d", r.name, p, r.ldb.ss.Index))
+	}
 	if idx > 0 {
 		w.feat["snapshot"] = true
 	}
@@ -222,6 +231,7 @@ func (w *world) restartB(f []string) {
 	if old.disk != nil && keep {
 		*old.disk = old.usm.(*diskSM).mem
 	}
+	w.cur = "B.recover"
 	nb := start("B", 2, w.p, w.fs, old.ldb, old.disk)
 	w.B = nb
 	nrm := len(nb.ldb.removals)
@@ -230,6 +240,7 @@ func (w *world) restartB(f []string) {
 		w.viol = append(w.viol, fmt.Sprintf("GAP-AFTER-RESTART replica B recovered from snapshot %d but its log was compacted up to %d", idx, nb.ldb.removedTo))
 	}
 	nb.removeLog()
+	w.cur = ""
 	w.emit(fmt.Sprintf("R from=%d %s | %s", idx, nb.obs(), nb.aux()))
 	w.newRemovals(nb, nrm)
 	if idx > 0 {
@@ -284,6 +295,7 @@ func (w *world) install(f []string) {
 		b.ldb.maxIndex = ssb.Index
 	}
 	nrm := len(b.ldb.removals)
+	w.cur = "B.recover"
 	task, ok, err := b.node.ProcessSnapshot(ssb, b.view().LastIndex)
 	if err != nil || !ok {
 		panic(fmt.Sprintf("processSnapshot: %v %v", ok, err))
@@ -294,6 +306,7 @@ func (w *world) install(f []string) {
 	}
 	b.printed = b.view().Index
 	b.removeLog()
+	w.cur = ""
 	w.emit(fmt.Sprintf("I saved=%d from=%d %s | %s", idx, got, b.obs(), b.aux()))
 	w.newRemovals(b, nrm)
 	if got > 0 {
@@ -427,6 +440,10 @@ func runCase(line string, st *vh.Stats) []string {
 			}
 			st.Count("panic")
 			w.feat["panic"] = true
+			if strings.HasPrefix(w.cur, "B.") {
+				// the uninterrupted replica applied the same log without stopping
+				w.viol = append(w.viol, fmt.Sprintf("CUT-REPLICA-PANIC during %s at op %d [%s]: %s", w.cur, k, o, msg))
+			}
 			failed = true
 			break
 		}
@@ -455,7 +472,7 @@ func runCase(line string, st *vh.Stats) []string {
 		st.Violation(id, v)
 	}
 	keys := []string{}
-	for _, k := range []string{"snapshot", "restart-from-snapshot", "install", "overlap", "compaction", "update-during-save", "lag"} {
+	for _, k := range []string{"snapshot", "restart-from-snapshot", "install", "overlap", "compaction", "update-during-save", "lag", "ondisk-init-skip"} {
 		if w.feat[k] {
 			keys = append(keys, k)
 			st.Count("case with " + k)
